@@ -74,6 +74,13 @@ func (t *vBlockingTransport) SetDeadline(tm time.Time) error {
 	return nil
 }
 
+// A half-deadline is a deadline too (seed C10j copied the context's deadline
+// onto the transport with SetReadDeadline, which the embedded vTransport
+// ignored).  Both are modelled as the full deadline: every assertion below
+// counts any non-zero deadline, whichever method installed it.
+func (t *vBlockingTransport) SetReadDeadline(tm time.Time) error  { return t.SetDeadline(tm) }
+func (t *vBlockingTransport) SetWriteDeadline(tm time.Time) error { return t.SetDeadline(tm) }
+
 func (t *vBlockingTransport) expire() {
 	t.deadline = time.Time{}
 	if !t.past {
